@@ -31,7 +31,8 @@ const (
 )
 
 var (
-	referrerTagRe = regexp.MustCompile(`^(sha256|sha512)-([0-9a-f]{64})$`)
+	// fallback tags are the subject digest with the ":" replaced, truncated to the 128 character limit of a tag
+	referrerTagRe = regexp.MustCompile(`^(sha256-[0-9a-f]{64}|sha512-[0-9a-f]{121})$`)
 )
 
 // Store interface is used to abstract access to a backend storage system for repositories.
